@@ -1,9 +1,13 @@
 (* C03 — loops, blocks, include_if and inserted blocks are pure sugar.
    Equivalence "for all contact input sequences" between the flow of a sugared sheet and
    the flow of its desugared twin is discharged by theorem for every pair the checker
-   accepts; the quantifier over sheets is discharged per generated twin pair. *)
+   accepts; the quantifier over sheets is discharged per generated twin pair.
+   The loop mechanics themselves (models Comp/Blocks.v and Tmpl/RowLoop.v, run with the
+   behaviour the probes of Gen/Tables.v find in the code) carry theorems for ALL sheets:
+   loop variables are lexically scoped and a loop over nothing is a pass-through. *)
 From Coq Require Import List NArith Bool.
-From RPFT Require Import Base.Sexp Base.SexpEq Flow.Lts Flow.Flow Flow.FlowFacts.
+From RPFT Require Import Base.Sexp Base.SexpEq Base.Result Gen.Tables Flow.Lts Flow.Flow Flow.FlowFacts.
+From RPFT Require Comp.Blocks Comp.BlocksFacts Cell.Cell Tmpl.MiniJinja Tmpl.RowLoop Tmpl.TmplFacts Tmpl.RowLoopFacts.
 Import ListNotations.
 
 Theorem C03_bisim_check_sound : forall f g,
@@ -16,3 +20,117 @@ Theorem C03_sim_check_sound : forall lm f g,
   forall t, traces f t -> exists t', traces g t' /\ Forall2 (ematch sexp lm) t t'.
 Proof. exact sim_check_sound. Qed.
 Print Assumptions C03_sim_check_sound.
+
+(* ---- loop mechanics, for every sheet, context, fuel, block type and undefined policy ---- *)
+
+(* 1. lexical scope (the code after the repair of loop-variable-shadows-outer-variable: the
+   bindings shadowed by the loop and index variables are put back after end_for): every call
+   of _parse_block, hence every loop however nested, returns with EXACTLY the context it was
+   entered with — whatever the variables are called, also `x;x`, also over zero elements *)
+Theorem C03_loop_variables_lexically_scoped : forall pol emp tol rows fuel s bt omit s',
+  Blocks.parse_block pol ScopeRestore emp tol rows fuel s bt omit = Blocks.ROk s' ->
+  Blocks.p_ctx s' = Blocks.p_ctx s.
+Proof. exact BlocksFacts.ctx_preserved. Qed.
+Print Assumptions C03_loop_variables_lexically_scoped.
+
+Example C03_loop_variables_lexically_scoped_nonvacuous :
+  Blocks.parse_block Strict ScopeRestore EmptySkip true BlocksFacts.w_rows 50
+    (Blocks.mkP 0 BlocksFacts.w_ctx []) Blocks.BRoot false
+  = Blocks.ROk (Blocks.mkP 4 BlocksFacts.w_ctx
+      [Blocks.EvRow [] [97; 102; 116; 101; 114; 32; 67; 88; 86; 65; 76]%N; Blocks.EvInst 3; Blocks.EvEnd [49]%N;
+       Blocks.EvInst 2; Blocks.EvRow [] [49; 98]%N; Blocks.EvInst 1; Blocks.EvEnter Blocks.BFor false;
+       Blocks.EvInst 2; Blocks.EvRow [] [48; 97]%N; Blocks.EvInst 1; Blocks.EvEnter Blocks.BFor false; Blocks.EvInst 0]).
+Proof. exact BlocksFacts.ctx_preserved_nonvacuous. Qed.
+Print Assumptions C03_loop_variables_lexically_scoped_nonvacuous.
+
+(* the same on the templating model that C16's correspondence ties to FlowParser *)
+Theorem C03_rowloop_variable_lexically_scoped : forall pe pn emp tol rows fuel bt omit pos cx log log' p cx',
+  RowLoop.parse_block pe pn ScopeRestore emp tol rows fuel bt omit pos cx log = (log', Ok (p, cx')) -> cx' = cx.
+Proof. exact RowLoopFacts.rowloop_ctx_preserved. Qed.
+Print Assumptions C03_rowloop_variable_lexically_scoped.
+
+(* the defect as it was recorded (dict.pop): kept as the witness that ScopeRestore is needed *)
+Example C03_pop_policy_loses_binding_refuted :
+  Blocks.parse_block Strict ScopePop EmptyFallThrough false BlocksFacts.w_rows 50
+    (Blocks.mkP 0 BlocksFacts.w_ctx []) Blocks.BRoot false = Blocks.RErr Blocks.Undefined
+  /\ exists lg, Blocks.parse_block Lenient ScopePop EmptyFallThrough false BlocksFacts.w_rows 50
+                  (Blocks.mkP 0 BlocksFacts.w_ctx []) Blocks.BRoot false
+                = Blocks.ROk (Blocks.mkP 4 [([107]%N, Blocks.VS [75]%N)]
+                                (Blocks.EvRow [] [97; 102; 116; 101; 114; 32]%N :: lg)).
+Proof. exact BlocksFacts.pop_loses_binding. Qed.
+Print Assumptions C03_pop_policy_loses_binding_refuted.
+
+(* 2. content read with omit_content (a false include_if head, the body of an empty loop) is
+   inert: nothing instantiated, no row handed on, no group registered, context untouched *)
+Theorem C03_omitted_content_is_inert : forall pol scope emp tol rows fuel s bt s',
+  Blocks.parse_block pol scope emp tol rows fuel s bt true = Blocks.ROk s' ->
+  Blocks.p_ctx s' = Blocks.p_ctx s
+  /\ exists ev, Blocks.p_log s' = ev ++ Blocks.p_log s /\ Forall BlocksFacts.skip_event ev.
+Proof. exact BlocksFacts.omit_is_inert. Qed.
+Print Assumptions C03_omitted_content_is_inert.
+
+(* 3. a loop over zero elements (the code after the repair of empty-loop) is a pass-through:
+   its body is consumed with omit_content, an empty group is registered under the head's id
+   (as for begin_block ... end_block with nothing inside), the enclosing block goes on *)
+Theorem C03_empty_loop_pass_through : forall pol rows f s bt s1 row x rest,
+  Blocks.next_row pol rows s false = Blocks.ROk (s1, Some row) ->
+  Blocks.i_kind row = Blocks.KBeginFor -> Blocks.i_inc row = true -> Blocks.i_iter row = [] ->
+  Blocks.i_vars row = x :: rest -> x <> [] ->
+  Blocks.parse_block pol ScopeRestore EmptySkip true rows (S f) s bt false
+  = match Blocks.parse_block pol ScopeRestore EmptySkip true rows f (Blocks.log s1 (Blocks.EvEnter Blocks.BFor true)) Blocks.BFor true with
+    | Blocks.ROk s2 => Blocks.parse_block pol ScopeRestore EmptySkip true rows f (Blocks.log s2 (Blocks.EvEnd (Blocks.i_id row))) bt false
+    | Blocks.RErr e => Blocks.RErr e
+    end.
+Proof. exact BlocksFacts.empty_loop_pass_through. Qed.
+Print Assumptions C03_empty_loop_pass_through.
+
+Example C03_empty_loop_pass_through_nonvacuous :
+  (exists s1 row, Blocks.next_row Strict BlocksFacts.e_rows (Blocks.mkP 1 BlocksFacts.e_ctx []) false = Blocks.ROk (s1, Some row)
+                  /\ Blocks.i_kind row = Blocks.KBeginFor /\ Blocks.i_inc row = true /\ Blocks.i_iter row = []
+                  /\ Blocks.i_vars row = [[120]%N])
+  /\ Blocks.parse_block Strict ScopeRestore EmptySkip true BlocksFacts.e_rows 50 (Blocks.mkP 0 BlocksFacts.e_ctx []) Blocks.BRoot false
+     = Blocks.ROk (Blocks.mkP 8 BlocksFacts.e_ctx
+         [Blocks.EvRow [] [98; 121; 101]%N; Blocks.EvInst 7; Blocks.EvEnd [50]%N; Blocks.EvEnter Blocks.BBlock true;
+          Blocks.EvEnter Blocks.BFor true; Blocks.EvInst 1; Blocks.EvRow [] [104; 105]%N; Blocks.EvInst 0])
+  /\ Blocks.parse_block Strict ScopePop EmptyFallThrough false BlocksFacts.e_rows 50 (Blocks.mkP 0 BlocksFacts.e_ctx []) Blocks.BRoot false
+     = Blocks.RErr Blocks.KeyErr.
+Proof. exact BlocksFacts.empty_loop_pass_through_nonvacuous. Qed.
+Print Assumptions C03_empty_loop_pass_through_nonvacuous.
+
+(* on the templating model: the empty loop is, event for event, the same head under a false
+   include_if (its body is never handed to the template engine: C16_skipped_not_evaluated) *)
+Theorem C03_rowloop_empty_loop_skipped : forall pe pn rows f bt pos cx log r var log2,
+  nth_error rows pos = Some r -> RowLoop.rk r = RowLoop.KBeginFor var -> var <> [] ->
+  RowLoop.inst_row_incl pe pn (Some cx) r (log ++ [RowLoop.EvRow pos true]) = (log2, Ok (true, RowLoop.MEntries [])) ->
+  RowLoop.parse_block pe pn ScopeRestore EmptySkip true rows (S f) bt false pos cx log
+  = match RowLoop.parse_block pe pn ScopeRestore EmptySkip true rows f RowLoop.BFor true (S pos) cx log2 with
+    | (log3, Err e) => (log3, Err e)
+    | (log3, Ok (p, _)) => RowLoop.parse_block pe pn ScopeRestore EmptySkip true rows f bt false p cx log3
+    end.
+Proof. exact RowLoopFacts.rowloop_empty_loop_skipped. Qed.
+Print Assumptions C03_rowloop_empty_loop_skipped.
+
+(* non-vacuity of the two RowLoop statements (concrete sheets; the second component of each is
+   what the code did before the repairs) *)
+Example C03_rowloop_variable_lexically_scoped_nonvacuous :
+  snd (RowLoop.parse_block Strict Strict ScopeRestore EmptySkip true RowLoopFacts.sh_rows 50 RowLoop.BRoot false 0 TmplFacts.ex_ctx [])
+  = Ok (4%nat, TmplFacts.ex_ctx)
+  /\ snd (RowLoop.parse_block Strict Strict ScopePop EmptyFallThrough false RowLoopFacts.sh_rows 50 RowLoop.BRoot false 0 TmplFacts.ex_ctx [])
+     = Err MiniJinja.EUndefined.
+Proof. exact RowLoopFacts.rowloop_scoped_witness. Qed.
+Print Assumptions C03_rowloop_variable_lexically_scoped_nonvacuous.
+
+Example C03_rowloop_empty_loop_skipped_nonvacuous :
+  (exists log2, RowLoop.inst_row_incl Strict Strict (Some TmplFacts.ex_ctx)
+                  (RowLoop.mk_srow (RowLoop.KBeginFor [120]%N) (TmplFacts.cT []) (MiniJinja.CNative (MiniJinja.EList [])))
+                  ([RowLoop.EvRow 0 true; RowLoop.EvEmit [104; 105]%N] ++ [RowLoop.EvRow 1 true])
+                = (log2, Ok (true, RowLoop.MEntries [])))
+  /\ RowLoop.parse_block Strict Strict ScopeRestore EmptySkip true RowLoopFacts.em_rows 50 RowLoop.BRoot false 0 TmplFacts.ex_ctx []
+     = ([RowLoop.EvRow 0 true; RowLoop.EvEmit [104; 105]%N; RowLoop.EvRow 1 true;
+         RowLoop.EvRender [123; 64; 32; 91; 93; 32; 64; 125]%N;
+         RowLoop.EvRow 2 false; RowLoop.EvRow 3 false; RowLoop.EvRow 4 true; RowLoop.EvEmit [116; 97; 105; 108]%N],
+        Ok (5%nat, TmplFacts.ex_ctx))
+  /\ snd (RowLoop.parse_block Strict Strict ScopePop EmptyFallThrough false RowLoopFacts.em_rows 50 RowLoop.BRoot false 0 TmplFacts.ex_ctx [])
+     = Err MiniJinja.EKey.
+Proof. exact RowLoopFacts.rowloop_empty_loop_skipped_nonvacuous. Qed.
+Print Assumptions C03_rowloop_empty_loop_skipped_nonvacuous.
